@@ -38,7 +38,7 @@ pub fn pts_digest(pts: &[Point]) -> String {
     format!("n={} first={} last={} h={}", pts.len(), fmt_pt(pts[0]), fmt_pt(pts[pts.len() - 1]), h)
 }
 
-/// The thin-line oracle; also used by module `thick` (width 1) and `poly`.
+/// The thin-line oracle (the first sentence of C17 as predicates on the real point list).
 pub fn thin_line_oracle(ctx: &mut Ctx, s: Point, e: Point, pts: &[Point]) {
     let (dx, dy) = ((e.x - s.x) as i64, (e.y - s.y) as i64);
     let n = dx.abs().max(dy.abs());
